@@ -239,7 +239,9 @@ var $convertSliceType = (slice, desiredType) => {
         return desiredType.nil; // Preserve nil value.
     }
 
-    return $subslice(new desiredType(slice.$array), slice.$offset, slice.$offset + slice.$length);
+    // The capacity is part of the slice value (it may have been limited by a
+    // full slice expression) and must survive the conversion.
+    return $subslice(new desiredType(slice.$array), slice.$offset, slice.$offset + slice.$length, slice.$offset + slice.$capacity);
 }
 
 var $decodeRune = (str, pos) => {
